@@ -136,6 +136,10 @@ def boolStr (b : Bool) : String := if b then "true" else "false"
 
 def lbNew (w : List String) : Option LB.Sys :=
   match w with
+  -- trailing "act": active health checks are switched on (with an interval no episode reaches);
+  -- nothing else about the balancer depends on it
+  | [strat, pas, thr, ej, rl, rmax, rref, cb, ft, st, mx, iv, to, "act"] =>
+    lbNew [strat, pas, thr, ej, rl, rmax, rref, cb, ft, st, mx, iv, to]
   | [strat, pas, thr, ej, rl, rmax, rref, cb, ft, st, mx, iv, to] =>
     match thr.toInt?, ej.toNat?, rmax.toInt?, rref.toInt?, ft.toNat?, st.toNat?, mx.toNat?, iv.toNat?, to.toNat? with
     | some thr, some ej, some rmax, some rref, some ft, some st, some mx, some iv, some to =>
@@ -235,6 +239,9 @@ def lbStep (s : DState) : List String → DState × String
           let r := LB.probeEnd y name t (res == "ok")
           ({ s with lb := some r.1, lbProbe := none }, "ok")
         | none => (s, "bad-op")
+      | "begin", [tid, now, xff, xri, remote, "upg"] =>
+        -- an upgrade offer the backend declines: limiter, breaker and dispatch see an ordinary request
+        lbStep s ["begin", tid, now, xff, xri, remote]
       | "begin", [tid, now, xff, xri, remote] =>
         match tid.toNat?, now.toNat? with
         | some tid, some t =>
@@ -441,6 +448,12 @@ def idStep (s : DState) : List String → DState × String
       let (ron, _, ton, _) := s.idCfg
       let per := (if ron then 1 else 0) + (if ton then 1 else 0)
       ({ s with idRl := s.idRl.map (fun t => t - n) }, s!"burst ids={n * per} dups=0")
+  | ["req", rid, tr, key, blen, ej, "own"] =>
+    -- the backend adds identifiers of its own to its answer: the propagated one stays the client's
+    idStep s ["req", rid, tr, key, blen, ej]
+  | ["req", rid, tr, key, blen, ej, "upg"] =>
+    -- an upgrade offer the backend declines is an ordinary request to every layer
+    idStep s ["req", rid, tr, key, blen, ej]
   | ["req", rid, tr, key, blen, ej] =>
     match blen.toNat? with
     | none => (s, "bad-op")
@@ -526,6 +539,23 @@ def wireStep (mx iv to ft st : String) : String :=
   | none =>
     let m := if c.cbMax == 0 then c.cbSuccess else c.cbMax
     s!"eff {m} {c.cbInterval * 1000000000} {c.cbTimeout * 1000000000} {c.cbFailure} {c.cbSuccess}"
+
+/-- `lb wireall`: validation, then the numbers each feature runs with (documented defaults for
+the values validation lets be zero) -/
+def wireAllStep (a : List String) : String :=
+  match a.mapM String.toInt? with
+  | some [ai, atm, pt, pto, rlm, rlr, wsi, wsa, wst, tbr, tbi] =>
+    let c := cfgOf [("b", "s1|http://127.0.0.1:9|1"), ("port", "8080"), ("strat", "round_robin"),
+      ("act", "1"), ("ai", toString ai), ("at", toString atm), ("ap", "/health"), ("pas", "1"), ("pt", toString pt), ("pto", toString pto),
+      ("rl", "1"), ("rlm", toString rlm), ("rlr", toString rlr), ("ws", "1"), ("wsi", toString wsi), ("wsa", toString wsa), ("wst", toString wst),
+      ("tbr", toString tbr), ("tbi", toString tbi)]
+    match Cfg.validate c with
+    | some _ => "rejected"
+    | none =>
+      let sec := (1000000000 : Int)
+      let d := fun (v dflt : Int) => if v == 0 then dflt else v
+      s!"eff ai={ai * sec} at={atm * sec} pt={pt} pto={pto * sec} rlm={rlm} rlr={rlr * sec} wsi={d wsi 10} wsa={d wsa 100} wst={d wst 300 * sec} tbr={d tbr 30 * sec} tbi={d tbi 90 * sec}"
+  | _ => "bad-op"
 
 def closedStr (p : Pool.State) : String :=
   let ids := p.closed.eraseDups
@@ -655,6 +685,7 @@ def pxStep (s : DState) : List String → DState × String
 
 def step (s : DState) (line : String) : DState × String :=
   match words line with
+  | ["rws", "-"] => ({ s with rwChain := none }, "ok")
   | ["rws", chain] =>
     if chain == "none" || ((chain.splitOn "+").mapM parsePlugin).isSome then ({ s with rwChain := some chain }, "ok") else (s, "bad-op")
   | "rw" :: "@" :: rest => (s, match s.rwChain with | some c => rwStep (c :: rest) | none => "bad-op")
@@ -678,6 +709,20 @@ def step (s : DState) (line : String) : DState × String :=
     (s, "stop returned within=true late=0" ++ (if pool == "1" then " pooledClosed=true" else ""))
   -- `stop_safe` + fact `gracefulStopAlways`: the balancer is stopped on every path of the shutdown
   | ["gs", _stuck] => (s, "gs returned probesAfter=0")
+  -- the model's components read the configuration; none of them writes it
+  | ["startup", level] => (s, "config-unchanged level=" ++ (if level == "-" then "info" else level))
+  -- loading keeps every string value as the file has it: the expected values travel with the op
+  | ["cfgval", _path, expect] => (s, " ".intercalate (expect.splitOn ";"))
+  | ["srvwire", r, w, i] =>
+    match r.toInt?, w.toInt?, i.toInt? with
+    | some r, some w, some i =>
+      let c := cfgOf [("b", "s1|http://127.0.0.1:9|1"), ("port", "8080"), ("tr", toString r), ("tw", toString w), ("ti", toString i)]
+      (match Cfg.validate c with
+       | some _ => (s, "rejected")
+       | none =>
+         let d := fun (v dflt : Int) => (if v == 0 then dflt else v) * 1000000000
+         (s, s!"eff r={d r 15} w={d w 15} i={d i 60}"))
+    | _, _, _ => (s, "bad-op")
   | ["wshold", _variant, _hs, _hm] => (s, "ws ok 1")
   | ["ws", _chain, sizes] => (s, s!"ws ok {(sizes.splitOn ",").length}")
   | ["cfg", _path, compact] => (s, cfgStep compact)
@@ -688,6 +733,7 @@ def step (s : DState) (line : String) : DState × String :=
   | "rl" :: rest => rlStep s rest
   | "cb" :: rest => cbStep s rest
   | ["lb", "wire", mx, iv, to, ft, st] => (s, wireStep mx iv to ft st)
+  | "lb" :: "wireall" :: rest => (s, wireAllStep rest)
   | "lb" :: rest => lbStep s rest
   | ["hash", "jump", k, n] =>
     match k.toNat?, n.toNat? with
